@@ -68,6 +68,7 @@ impl Scenario for Foreign {
             l.force_z64_end = r.chance(2, 3);
             if l.force_z64_end {
                 l.trailing = 0;
+                l.z64_end_real = if r.chance(1, 2) { r.range(1, 7) as u8 } else { 0 };
             }
         }
         if rs.chance(1, 8) {
